@@ -726,4 +726,428 @@ theorem div2expVal_spec {a : Q} (ha : Canonical a) (n : Nat) :
       rcases s3 with h | h
       · subst h; simpa using isCoprime_one_right
       · exact (isCoprime_of_odd h).symm.pow_right
+
+/-! ### limb and bit counts (mpq_cmp pre-checks) -/
+
+theorem bits_zero : bits 0 = 0 := by simp [bits]
+theorem limbs_zero : limbs 0 = 0 := by simp [limbs, bits]
+
+theorem bits_pos {x : Nat} (hx : x ≠ 0) : 1 ≤ bits x := by simp [bits, hx]
+
+theorem bits_lb {x : Nat} (hx : x ≠ 0) : 2 ^ (bits x - 1) ≤ x := by
+  simp only [bits, hx, if_false, Nat.add_sub_cancel]; exact Nat.log2_self_le hx
+
+theorem bits_ub (x : Nat) : x < 2 ^ bits x := by
+  by_cases hx : x = 0
+  · subst hx; simp [bits]
+  · simp only [bits, hx, if_false]; exact Nat.lt_log2_self
+
+theorem limbs_pos {x : Nat} (hx : x ≠ 0) : 1 ≤ limbs x := by
+  have := bits_pos hx; unfold limbs; omega
+
+theorem bits_le_limbs (x : Nat) : bits x ≤ 64 * limbs x := by unfold limbs; omega
+
+theorem limbs_lb {x : Nat} (hx : x ≠ 0) : B ^ (limbs x - 1) ≤ x := by
+  have h1 := bits_lb hx
+  have h2 := bits_pos hx
+  have h3 : 64 * (limbs x - 1) ≤ bits x - 1 := by unfold limbs; omega
+  calc B ^ (limbs x - 1) = 2 ^ (64 * (limbs x - 1)) := by rw [B_eq_pow, ← pow_mul]
+    _ ≤ 2 ^ (bits x - 1) := Nat.pow_le_pow_right (by norm_num) h3
+    _ ≤ x := h1
+
+theorem limbs_ub (x : Nat) : x < B ^ limbs x := by
+  calc x < 2 ^ bits x := bits_ub x
+    _ ≤ 2 ^ (64 * limbs x) := Nat.pow_le_pow_right (by norm_num) (bits_le_limbs x)
+    _ = B ^ limbs x := by rw [B_eq_pow, ← pow_mul]
+
+theorem limbs_eq_zero {x : Nat} : limbs x = 0 ↔ x = 0 := by
+  constructor
+  · intro h; by_contra hx; have := limbs_pos hx; omega
+  · rintro rfl; exact limbs_zero
+
+theorem limbs_lt_imp_lt {x y : Nat} (h : limbs x < limbs y) : x < y := by
+  have hy : y ≠ 0 := by rintro rfl; rw [limbs_zero] at h; omega
+  calc x < B ^ limbs x := limbs_ub x
+    _ ≤ B ^ (limbs y - 1) := Nat.pow_le_pow_right B_pos (by omega)
+    _ ≤ y := limbs_lb hy
+
+/-- count comparison => product comparison, for base `b` (2 for bit counts, B for limb counts):
+    `U < b^r`, `V ≤ b^s`, `b^(p-1) ≤ X`, `b^(q-1) ≤ Y`, `r + s + 2 ≤ p + q` give `U*V < X*Y`. -/
+theorem prod_lt_of_counts {b U V X Y r s p q : Nat} (hb : 0 < b)
+    (hU : U < b ^ r) (hV : V ≤ b ^ s) (hX : b ^ (p - 1) ≤ X) (hY : b ^ (q - 1) ≤ Y)
+    (hp : 1 ≤ p) (hq : 1 ≤ q) (h : r + s + 2 ≤ p + q) : U * V < X * Y := by
+  have h1 : U * V < b ^ r * b ^ s := by
+    have hs : 0 < b ^ s := Nat.pow_pos hb
+    calc U * V ≤ U * b ^ s := Nat.mul_le_mul_left U hV
+      _ < b ^ r * b ^ s := Nat.mul_lt_mul_of_pos_right hU hs
+  have h2 : b ^ r * b ^ s ≤ b ^ (p - 1) * b ^ (q - 1) := by
+    rw [← pow_add, ← pow_add]; exact Nat.pow_le_pow_right hb (by omega)
+  calc U * V < b ^ r * b ^ s := h1
+    _ ≤ b ^ (p - 1) * b ^ (q - 1) := h2
+    _ ≤ X * Y := Nat.mul_le_mul hX hY
+
+theorem size_eq_zero {z : ℤ} : size z = 0 ↔ z = 0 := by
+  unfold size
+  split_ifs with h
+  · have : limbs z.natAbs ≠ 0 := by rw [Ne, limbs_eq_zero]; omega
+    constructor <;> intro h' <;> omega
+  · rw [show ((limbs z.natAbs : ℕ) : ℤ) = 0 ↔ limbs z.natAbs = 0 by omega, limbs_eq_zero]; omega
+
+theorem size_neg_iff {z : ℤ} : size z < 0 ↔ z < 0 := by
+  unfold size
+  split_ifs with h
+  · have : limbs z.natAbs ≠ 0 := by rw [Ne, limbs_eq_zero]; omega
+    constructor <;> intro _ <;> omega
+  · constructor <;> intro h' <;> omega
+
+theorem size_natAbs (z : ℤ) : (size z).natAbs = limbs z.natAbs := by
+  unfold size; split_ifs <;> omega
+
+theorem size_of_pos {z : ℤ} (h : 0 < z) : size z = (limbs z.natAbs : ℕ) := by
+  unfold size; rw [if_neg (by omega)]
+
+theorem size_of_neg {z : ℤ} (h : z < 0) : size z = -((limbs z.natAbs : ℕ) : ℤ) := by
+  unfold size; rw [if_pos h]
+
+theorem sign_size (z : ℤ) : Int.sign (size z) = Int.sign z := by
+  rcases lt_trichotomy z 0 with h | h | h
+  · have h1 : size z < 0 := size_neg_iff.mpr h
+    rw [Int.sign_eq_neg_one_of_neg h1, Int.sign_eq_neg_one_of_neg h]
+  · subst h; rw [size_eq_zero.mpr rfl]
+  · have h1 : 0 < size z := by
+      have h2 : ¬ size z < 0 := fun hh => by have := size_neg_iff.mp hh; omega
+      have h3 : size z ≠ 0 := fun hh => by have := size_eq_zero.mp hh; omega
+      omega
+    rw [Int.sign_eq_one_of_pos h1, Int.sign_eq_one_of_pos h]
+
+theorem clzTop_eq (x : Nat) : (clzTop x : ℤ) = 64 * (limbs x : ℤ) - (bits x : ℤ) := by
+  unfold clzTop; have := bits_le_limbs x; omega
+
+theorem sign_cmpNat (a b : Nat) : Int.sign (cmpNat a b) = Int.sign ((a : ℤ) - (b : ℤ)) := by
+  unfold cmpNat
+  split_ifs with h1 h2
+  · rw [Int.sign_eq_neg_one_of_neg (by omega : (a : ℤ) - b < 0)]; rfl
+  · rw [Int.sign_eq_one_of_pos (by omega : 0 < (a : ℤ) - b)]; rfl
+  · have : a = b := by omega
+    subst this; simp
+
+/-! ### mpq_cmp, mpq_cmp_ui, mpq_cmp_si -/
+
+/-- sign factor carried by `num1_sign` -/
+def sgnOf (s : ℤ) : ℤ := if s < 0 then -1 else 1
+
+theorem sign_limb_diff {x y : Nat} (h : (limbs x : ℤ) - (limbs y : ℤ) ≠ 0) :
+    Int.sign ((limbs x : ℤ) - (limbs y : ℤ)) = Int.sign ((x : ℤ) - (y : ℤ)) := by
+  rcases lt_trichotomy (limbs x) (limbs y) with h1 | h1 | h1
+  · have := limbs_lt_imp_lt h1
+    rw [Int.sign_eq_neg_one_of_neg (by omega), Int.sign_eq_neg_one_of_neg (by omega)]
+  · omega
+  · have := limbs_lt_imp_lt h1
+    rw [Int.sign_eq_one_of_pos (by omega), Int.sign_eq_one_of_pos (by omega)]
+
+theorem cmpCross_sign (s : ℤ) (n1 d1 n2 d2 : Nat) :
+    Int.sign (cmpCross s n1 d1 n2 d2) = sgnOf s * Int.sign (((n1 * d2 : ℕ) : ℤ) - ((n2 * d1 : ℕ) : ℤ)) := by
+  unfold cmpCross sgnOf
+  simp only []
+  have hcc : Int.sign (if ((limbs (n1 * d2) : ℕ) : ℤ) - ((limbs (n2 * d1) : ℕ) : ℤ) ≠ 0
+      then ((limbs (n1 * d2) : ℕ) : ℤ) - ((limbs (n2 * d1) : ℕ) : ℤ) else cmpNat (n1 * d2) (n2 * d1))
+      = Int.sign (((n1 * d2 : ℕ) : ℤ) - ((n2 * d1 : ℕ) : ℤ)) := by
+    split_ifs with h
+    · exact sign_limb_diff h
+    · exact sign_cmpNat _ _
+  by_cases hs : s < 0
+  · rw [if_pos hs, if_pos hs, Int.sign_neg, hcc]; ring
+  · rw [if_neg hs, if_neg hs, hcc]; ring
+
+theorem sgnOf_mul_sign (s : ℤ) (hs : s ≠ 0) : Int.sign s = sgnOf s := by
+  unfold sgnOf
+  split_ifs with h
+  · exact Int.sign_eq_neg_one_of_neg h
+  · exact Int.sign_eq_one_of_pos (by omega)
+
+theorem cmpPre_sign (s : ℤ) (hs : s ≠ 0) (n1 d1 n2 d2 : Nat) (i : ℤ)
+    (hn1 : n1 ≠ 0) (hd1 : d1 ≠ 0) (hn2 : n2 ≠ 0) (hd2 : d2 ≠ 0)
+    (hi : (i = 0) ∨ (i = 1 ∧ d2 = 1)) :
+    Int.sign (cmpPre s n1 d1 n2 d2 i) = sgnOf s * Int.sign (((n1 * d2 : ℕ) : ℤ) - ((n2 * d1 : ℕ) : ℤ)) := by
+  unfold cmpPre
+  simp only [clzTop_eq]
+  have gt_case : n2 * d1 < n1 * d2 → sgnOf s = sgnOf s * Int.sign (((n1 * d2 : ℕ) : ℤ) - ((n2 * d1 : ℕ) : ℤ)) := by
+    intro h; rw [Int.sign_eq_one_of_pos (by omega)]; ring
+  have lt_case : n1 * d2 < n2 * d1 → -sgnOf s = sgnOf s * Int.sign (((n1 * d2 : ℕ) : ℤ) - ((n2 * d1 : ℕ) : ℤ)) := by
+    intro h; rw [Int.sign_eq_neg_one_of_neg (by omega)]; ring
+  have ln1 := limbs_pos hn1; have ld1 := limbs_pos hd1; have ln2 := limbs_pos hn2; have ld2 := limbs_pos hd2
+  have bn1 := bits_pos hn1; have bd1 := bits_pos hd1; have bn2 := bits_pos hn2; have bd2 := bits_pos hd2
+  split_ifs with c1 c2 c3 c4
+  · rw [sgnOf_mul_sign s hs]
+    apply gt_case
+    exact prod_lt_of_counts B_pos (limbs_ub n2) (limbs_ub d1).le (limbs_lb hn1) (limbs_lb hd2) ln1 ld2 (by omega)
+  · rw [Int.sign_neg, sgnOf_mul_sign s hs]
+    apply lt_case
+    rcases hi with rfl | ⟨rfl, rfl⟩
+    · exact prod_lt_of_counts B_pos (limbs_ub n1) (limbs_ub d2).le (limbs_lb hn2) (limbs_lb hd1) ln2 ld1 (by omega)
+    · have : limbs 1 = 1 := by decide
+      exact prod_lt_of_counts (s := 0) B_pos (limbs_ub n1) (by simp) (limbs_lb hn2) (limbs_lb hd1) ln2 ld1 (by omega)
+  · rw [sgnOf_mul_sign s hs]
+    apply gt_case
+    exact prod_lt_of_counts (by norm_num : 0 < 2) (bits_ub n2) (bits_ub d1).le (bits_lb hn1) (bits_lb hd2) bn1 bd2 (by omega)
+  · rw [Int.sign_neg, sgnOf_mul_sign s hs]
+    apply lt_case
+    rcases hi with rfl | ⟨rfl, rfl⟩
+    · exact prod_lt_of_counts (by norm_num : 0 < 2) (bits_ub n1) (bits_ub d2).le (bits_lb hn2) (bits_lb hd1) bn2 bd1 (by omega)
+    · have : bits 1 = 1 := by decide
+      have : limbs 1 = 1 := by decide
+      exact prod_lt_of_counts (s := 0) (by norm_num : 0 < 2) (bits_ub n1) (by simp) (bits_lb hn2) (bits_lb hd1) bn2 bd1 (by omega)
+  · exact cmpCross_sign s n1 d1 n2 d2
+
+
+/-- same sign, non-zero numerators: the exact difference factors through the magnitudes -/
+theorem cross_same_sign {n1 d1 n2 d2 : ℤ} (hd1 : 0 < d1) (hd2 : 0 < d2)
+    (h : (n1 < 0 ∧ n2 < 0) ∨ (0 < n1 ∧ 0 < n2)) :
+    n1 * d2 - n2 * d1 =
+      Int.sign n1 * (((n1.natAbs * d2.natAbs : ℕ) : ℤ) - ((n2.natAbs * d1.natAbs : ℕ) : ℤ)) := by
+  have e1 : (d1.natAbs : ℤ) = d1 := by omega
+  have e2 : (d2.natAbs : ℤ) = d2 := by omega
+  rw [Nat.cast_mul, Nat.cast_mul, e1, e2]
+  rcases h with ⟨a, b⟩ | ⟨a, b⟩
+  · rw [Int.sign_eq_neg_one_of_neg a]
+    have x1 : (n1.natAbs : ℤ) = -n1 := by omega
+    have x2 : (n2.natAbs : ℤ) = -n2 := by omega
+    rw [x1, x2]; ring
+  · rw [Int.sign_eq_one_of_pos a]
+    have x1 : (n1.natAbs : ℤ) = n1 := by omega
+    have x2 : (n2.natAbs : ℤ) = n2 := by omega
+    rw [x1, x2]; ring
+
+theorem cmpNumDen_sign {n1 d1 n2 d2 : ℤ} (hd1 : 0 < d1) (hd2 : 0 < d2) :
+    Int.sign (cmpNumDen n1 d1 n2 d2) = Int.sign (n1 * d2 - n2 * d1) := by
+  unfold cmpNumDen
+  simp only [size_eq_zero]
+  by_cases z1 : n1 = 0
+  · rw [if_pos z1]; subst z1
+    rw [Int.sign_neg, sign_size]; simp [Int.sign_mul, Int.sign_eq_one_of_pos hd1]
+  rw [if_neg z1]
+  by_cases z2 : n2 = 0
+  · rw [if_pos z2]; subst z2
+    rw [sign_size]; simp [Int.sign_mul, Int.sign_eq_one_of_pos hd2]
+  rw [if_neg z2]
+  by_cases sd : decide (size n1 < 0) ≠ decide (size n2 < 0)
+  · rw [if_pos sd, sign_size]
+    simp only [size_neg_iff, ne_eq, decide_eq_decide] at sd
+    rcases lt_or_gt_of_ne z1 with a | a
+    · have b : 0 < n2 := by
+        rcases lt_or_gt_of_ne z2 with b | b
+        · exact absurd (iff_of_true a b) sd
+        · exact b
+      rw [Int.sign_eq_neg_one_of_neg a, Int.sign_eq_neg_one_of_neg (by nlinarith)]
+    · have b : n2 < 0 := by
+        rcases lt_or_gt_of_ne z2 with b | b
+        · exact b
+        · exact absurd (iff_of_false (by omega) (by omega)) sd
+      rw [Int.sign_eq_one_of_pos a, Int.sign_eq_one_of_pos (by nlinarith)]
+  rw [if_neg sd]
+  have same : (n1 < 0 ∧ n2 < 0) ∨ (0 < n1 ∧ 0 < n2) := by
+    simp only [size_neg_iff, ne_eq, decide_eq_decide, not_not] at sd
+    rcases lt_or_gt_of_ne z1 with a | a
+    · exact Or.inl ⟨a, sd.mp a⟩
+    · right; refine ⟨a, ?_⟩
+      rcases lt_or_gt_of_ne z2 with b | b
+      · have := sd.mpr b; omega
+      · exact b
+  have hR := cross_same_sign hd1 hd2 same
+  have hs0 : size n1 ≠ 0 := fun h => z1 (size_eq_zero.mp h)
+  have hsg : Int.sign n1 = sgnOf (size n1) := by rw [← sign_size, sgnOf_mul_sign _ hs0]
+  have pre : ∀ i : ℤ, (i = 0 ∨ (i = 1 ∧ d2.natAbs = 1)) →
+      Int.sign (cmpPre (size n1) n1.natAbs d1.natAbs n2.natAbs d2.natAbs i) = Int.sign (n1 * d2 - n2 * d1) := by
+    intro i hi
+    rw [cmpPre_sign (size n1) hs0 _ _ _ _ i (by omega) (by omega) (by omega) (by omega) hi, hR, Int.sign_mul,
+      Int.sign_sign, hsg]
+  by_cases hi : d2 = 1
+  · subst hi
+    simp only [if_true, true_and]
+    by_cases hd : d1 = 1
+    · rw [if_pos hd]; subst hd
+      simp only [mul_one]
+      by_cases hsz : size n1 ≠ size n2
+      · rw [if_pos hsz]
+        rcases same with ⟨a, b⟩ | ⟨a, b⟩
+        · rw [size_of_neg a, size_of_neg b] at hsz ⊢
+          have e : -((limbs n1.natAbs : ℕ) : ℤ) - -((limbs n2.natAbs : ℕ) : ℤ)
+              = ((limbs n2.natAbs : ℕ) : ℤ) - ((limbs n1.natAbs : ℕ) : ℤ) := by ring
+          rw [e, sign_limb_diff (by omega)]
+          congr 1; omega
+        · rw [size_of_pos a, size_of_pos b] at hsz ⊢
+          rw [sign_limb_diff (by omega)]
+          congr 1; omega
+      · rw [if_neg hsz]
+        rcases same with ⟨a, b⟩ | ⟨a, b⟩
+        · have : ¬ size n1 > 0 := by have := size_neg_iff.mpr a; omega
+          rw [if_neg this, Int.sign_neg, sign_cmpNat, ← Int.sign_neg]
+          congr 1; omega
+        · have : size n1 > 0 := by rw [size_of_pos a]; have := limbs_pos (x := n1.natAbs) (by omega); omega
+          rw [if_pos this, sign_cmpNat]
+          congr 1; omega
+    · rw [if_neg hd]
+      exact pre 1 (Or.inr ⟨rfl, rfl⟩)
+  · simp only [hi, if_false]
+    rw [if_neg (by omega)]
+    exact pre 0 (Or.inl rfl)
+
+
+theorem cmpUiVal_sign {n1 d1 : ℤ} {num2 den2 : Nat} (hd1 : 0 < d1) (hden2 : den2 ≠ 0)
+    (hb1 : num2 < B) (hb2 : den2 < B) :
+    ∃ c, cmpUiVal n1 d1 num2 den2 = some c ∧
+      Int.sign c = Int.sign (n1 * (den2 : ℤ) - (num2 : ℤ) * d1) := by
+  unfold cmpUiVal
+  simp only [size_eq_zero, size_neg_iff]
+  rw [if_neg hden2]
+  have hden2' : (0 : ℤ) < (den2 : ℤ) := by omega
+  by_cases z1 : n1 = 0
+  · rw [if_pos z1]; subst z1
+    refine ⟨_, rfl, ?_⟩
+    by_cases hz : num2 = 0
+    · subst hz; simp
+    · have : (0 : ℤ) * (den2 : ℤ) - (num2 : ℤ) * d1 < 0 := by
+        have : 0 < (num2 : ℤ) * d1 := mul_pos (by omega) hd1
+        omega
+      rw [if_pos hz, Int.sign_eq_neg_one_of_neg this]; rfl
+  rw [if_neg z1]
+  by_cases neg1 : n1 < 0
+  · rw [if_pos neg1]
+    refine ⟨_, rfl, ?_⟩
+    have : n1 * (den2 : ℤ) - (num2 : ℤ) * d1 < 0 := by
+      have h1 : n1 * (den2 : ℤ) < 0 := mul_neg_of_neg_of_pos neg1 hden2'
+      have h2 : 0 ≤ (num2 : ℤ) * d1 := mul_nonneg (by omega) hd1.le
+      omega
+    rw [sign_size, Int.sign_eq_neg_one_of_neg neg1, Int.sign_eq_neg_one_of_neg this]
+  rw [if_neg neg1]
+  have pos1 : 0 < n1 := by omega
+  by_cases z2 : num2 = 0
+  · rw [if_pos z2]; subst z2
+    refine ⟨_, rfl, ?_⟩
+    have : 0 < n1 * (den2 : ℤ) - ((0 : ℕ) : ℤ) * d1 := by
+      have := mul_pos pos1 hden2'; simpa using this
+    rw [sign_size, Int.sign_eq_one_of_pos pos1, Int.sign_eq_one_of_pos this]
+  rw [if_neg z2]
+  -- magnitudes
+  have e1 : (n1.natAbs : ℤ) = n1 := by omega
+  have ed : (d1.natAbs : ℤ) = d1 := by omega
+  have hn : n1.natAbs ≠ 0 := by omega
+  have hdn : d1.natAbs ≠ 0 := by omega
+  have hgoal : n1 * (den2 : ℤ) - (num2 : ℤ) * d1
+      = ((n1.natAbs * den2 : ℕ) : ℤ) - ((d1.natAbs * num2 : ℕ) : ℤ) := by
+    rw [Nat.cast_mul, Nat.cast_mul, e1, ed]; ring
+  rw [size_of_pos pos1, size_of_pos hd1]
+  have ln := limbs_pos hn
+  have ld := limbs_pos hdn
+  have one_le : ∀ x : ℕ, x ≠ 0 → B ^ (1 - 1) ≤ x := by intro x hx; simp; omega
+  by_cases c1 : ((limbs n1.natAbs : ℕ) : ℤ) > ((limbs d1.natAbs : ℕ) : ℤ) + 1
+  · rw [if_pos c1]
+    refine ⟨_, rfl, ?_⟩
+    have h : num2 * d1.natAbs < n1.natAbs * den2 :=
+      prod_lt_of_counts (r := 1) B_pos (by simpa using hb1) (limbs_ub _).le (limbs_lb hn) (one_le _ hden2)
+        ln (le_refl 1) (by omega)
+    have : 0 < ((n1.natAbs * den2 : ℕ) : ℤ) - ((d1.natAbs * num2 : ℕ) : ℤ) := by
+      rw [Nat.mul_comm d1.natAbs]; omega
+    rw [hgoal, Int.sign_eq_one_of_pos this, Int.sign_eq_one_of_pos (by omega)]
+  rw [if_neg c1]
+  by_cases c2 : ((limbs d1.natAbs : ℕ) : ℤ) > ((limbs n1.natAbs : ℕ) : ℤ) + 1
+  · rw [if_pos c2]
+    refine ⟨_, rfl, ?_⟩
+    have h : n1.natAbs * den2 < d1.natAbs * num2 :=
+      prod_lt_of_counts (s := 1) B_pos (limbs_ub _) (by simpa using hb2.le) (limbs_lb hdn) (one_le _ z2)
+        ld (le_refl 1) (by omega)
+    have : ((n1.natAbs * den2 : ℕ) : ℤ) - ((d1.natAbs * num2 : ℕ) : ℤ) < 0 := by omega
+    rw [hgoal, Int.sign_eq_neg_one_of_neg this, Int.sign_eq_neg_one_of_neg (by omega)]
+  rw [if_neg c2]
+  refine ⟨_, rfl, ?_⟩
+  rw [hgoal]
+  split_ifs with h
+  · exact sign_limb_diff h
+  · exact sign_cmpNat _ _
+
+
+/-- equal `Int.sign` means the same trichotomy class -/
+theorem tri_of_sign_eq {c S : ℤ} (h : Int.sign c = Int.sign S) :
+    (c < 0 ↔ S < 0) ∧ (c = 0 ↔ S = 0) ∧ (0 < c ↔ 0 < S) := by
+  rcases lt_trichotomy c 0 with hc | hc | hc <;> rcases lt_trichotomy S 0 with hS | hS | hS
+  all_goals
+    first
+      | (rw [Int.sign_eq_neg_one_of_neg hc] at h)
+      | (subst hc; rw [Int.sign_zero] at h)
+      | (rw [Int.sign_eq_one_of_pos hc] at h)
+  all_goals
+    first
+      | (rw [Int.sign_eq_neg_one_of_neg hS] at h)
+      | (subst hS; rw [Int.sign_zero] at h)
+      | (rw [Int.sign_eq_one_of_pos hS] at h)
+  all_goals omega
+
+/-- order of two fractions with positive denominators through the cross products -/
+theorem toRat_tri {a : Q} {n d : ℤ} (ha : 0 < a.den) (hd : 0 < d) :
+    (a.toRat < (n : ℚ) / d ↔ a.num * d - n * a.den < 0) ∧
+    (a.toRat = (n : ℚ) / d ↔ a.num * d - n * a.den = 0) ∧
+    ((n : ℚ) / d < a.toRat ↔ 0 < a.num * d - n * a.den) := by
+  unfold Q.toRat
+  have x1 : (0 : ℚ) < a.den := by exact_mod_cast ha
+  have x2 : (0 : ℚ) < d := by exact_mod_cast hd
+  refine ⟨?_, ?_, ?_⟩
+  · rw [div_lt_div_iff₀ x1 x2]
+    constructor
+    · intro h; have : a.num * d < n * a.den := by exact_mod_cast h
+      omega
+    · intro h; have : a.num * d < n * a.den := by omega
+      exact_mod_cast this
+  · rw [div_eq_div_iff x1.ne' x2.ne']
+    constructor
+    · intro h; have : a.num * d = n * a.den := by exact_mod_cast h
+      omega
+    · intro h; have : a.num * d = n * a.den := by omega
+      exact_mod_cast this
+  · rw [div_lt_div_iff₀ x2 x1]
+    constructor
+    · intro h; have : n * a.den < a.num * d := by exact_mod_cast h
+      omega
+    · intro h; have : n * a.den < a.num * d := by omega
+      exact_mod_cast this
+
+theorem cmp_si_sign {n1 d1 n : ℤ} {d : Nat} (h : Heap) (q : Nat) (hq : h q = ⟨n1, d1⟩)
+    (hd1 : 0 < d1) (hd : d ≠ 0) (hb : d < B) (hn : n.natAbs < B) :
+    ∃ c, cmp_si q n d h = some c ∧ Int.sign c = Int.sign (n1 * (d : ℤ) - n * d1) := by
+  unfold cmp_si
+  rw [hq]
+  simp only []
+  have hd' : (0 : ℤ) < (d : ℤ) := by omega
+  by_cases p1 : n1 ≥ 0
+  · rw [if_pos p1]
+    by_cases p2 : n ≥ 0
+    · rw [if_pos p2]
+      obtain ⟨c, hc, hs⟩ := cmpUiVal_sign (n1 := n1) hd1 hd hn hb
+      refine ⟨c, hc, ?_⟩
+      have e2 : (n.natAbs : ℤ) = n := by omega
+      rw [hs, e2]
+    · rw [if_neg p2]
+      refine ⟨1, rfl, ?_⟩
+      have : 0 < n1 * (d : ℤ) - n * d1 := by
+        have h1 : 0 ≤ n1 * (d : ℤ) := mul_nonneg p1 hd'.le
+        have h2 : n * d1 < 0 := mul_neg_of_neg_of_pos (by omega) hd1
+        omega
+      rw [Int.sign_eq_one_of_pos this]; rfl
+  · rw [if_neg p1]
+    by_cases p2 : n ≥ 0
+    · rw [if_pos p2]
+      refine ⟨-1, rfl, ?_⟩
+      have : n1 * (d : ℤ) - n * d1 < 0 := by
+        have h1 : n1 * (d : ℤ) < 0 := mul_neg_of_neg_of_pos (by omega) hd'
+        have h2 : 0 ≤ n * d1 := mul_nonneg p2 hd1.le
+        omega
+      rw [Int.sign_eq_neg_one_of_neg this]; rfl
+    · rw [if_neg p2]
+      obtain ⟨c, hc, hs⟩ := cmpUiVal_sign (n1 := (n1.natAbs : ℤ)) hd1 hd hn hb
+      refine ⟨-c, by rw [hc]; rfl, ?_⟩
+      rw [Int.sign_neg, hs, ← Int.sign_neg]
+      congr 1
+      have e1 : (n1.natAbs : ℤ) = -n1 := by omega
+      have e2 : (n.natAbs : ℤ) = -n := by omega
+      rw [e1, e2]; ring
+
 end Mpir.Mpq
